@@ -14,7 +14,8 @@ variable (cfg : Cfg) (eval : Nat → List Val → Except Err Val) (cancelErr : E
     maximal run the user thread has executed its whole script — every `shutdown` call in it,
     explicit, repeated or implied by the with-block, has returned.  (Hypotheses as in
     `C02.no_lost_futures`: in particular no call raises; with a raising call and two or more
-    block-allocation workers the code deadlocks — finding D19, counterexample below.) -/
+    block-allocation workers the code deadlocks — finding D19, counterexample below.)
+    `shutdown_returns_lim` is the stronger theorem (`WfLim`, limits only, instead of `WfRes`). -/
 theorem shutdown_returns (hnf : NoFail eval) (hwf : WfCfg cfg) (hres : WfRes cfg)
     {script : List Cmd} {s : State Val Err}
     (hsc : (script.filter isSubmit).length ≤ cfg.calls.length)
@@ -22,6 +23,18 @@ theorem shutdown_returns (hnf : NoFail eval) (hwf : WfCfg cfg) (hres : WfRes cfg
     (hst : Stuck cfg eval cancelErr s) : mainFinished s = true := by
   obtain ⟨hC, hL, hA, hb⟩ := progress_hyps_reachable_wfRes cfg eval cancelErr hnf hres hsc h
   exact (stuck_final cfg eval cancelErr hnf hwf hres hC hL.inv hA hD hb hst).2.1
+
+/-- **shutdown() returns, for any program**: as `shutdown_returns`, with the limit-level hypothesis
+    `WfLim` in place of `WfRes` — nothing is assumed of the requests of the program's calls (a call
+    too big for `max_cores` is rejected by `submit`).  The stronger version. -/
+theorem shutdown_returns_lim (hnf : NoFail eval) (hwf : WfCfg cfg) (hl : WfLim cfg)
+    {script : List Cmd} {s : State Val Err}
+    (hsc : (script.filter isSubmit).length ≤ cfg.calls.length)
+    (h : Reachable cfg eval cancelErr script s) (hD : pg_depOk cfg s = true)
+    (hst : Stuck cfg eval cancelErr s) : mainFinished s = true := by
+  obtain ⟨hC, hL, hA, hb⟩ := progress_hyps_reachable_wfLim cfg eval cancelErr hnf hl hsc h
+  have hF := accFits_reachable cfg eval cancelErr h
+  exact (stuck_final_lim cfg eval cancelErr hnf hwf hl hF hC hL.inv hA hD hb hst).2.1
 
 /-- **Repeatable**: `shutdown` on an executor that is already shut down does nothing and raises
     nothing, for all four `(wait, cancel_futures)` combinations. -/
@@ -47,6 +60,16 @@ theorem shutdown_raises_nothing (hnf : NoFail eval) (hres : WfRes cfg)
     (h : Reachable cfg eval cancelErr script s) (b : Bool) :
     step cfg eval cancelErr s (.sdJoinThreadRaise b) = none ∧ step cfg eval cancelErr s .dJoinThreadRaise = none := by
   obtain ⟨_, hL, _, _⟩ := progress_hyps_reachable_wfRes cfg eval cancelErr hnf hres hsc h
+  have := ax_fail_disabled cfg eval cancelErr hnf hL.inv.noDead
+  exact ⟨this.2.1 b, this.2.2⟩
+
+/-- `shutdown_raises_nothing` with `WfLim` in place of `WfRes` (the stronger version). -/
+theorem shutdown_raises_nothing_lim (hnf : NoFail eval) (hl : WfLim cfg)
+    {script : List Cmd} {s : State Val Err}
+    (hsc : (script.filter isSubmit).length ≤ cfg.calls.length)
+    (h : Reachable cfg eval cancelErr script s) (b : Bool) :
+    step cfg eval cancelErr s (.sdJoinThreadRaise b) = none ∧ step cfg eval cancelErr s .dJoinThreadRaise = none := by
+  obtain ⟨_, hL, _, _⟩ := progress_hyps_reachable_wfLim cfg eval cancelErr hnf hl hsc h
   have := ax_fail_disabled cfg eval cancelErr hnf hL.inv.noDead
   exact ⟨this.2.1 b, this.2.2⟩
 
